@@ -281,10 +281,10 @@ class AggrGen:
                                [('Me_3', 'Number'), ('Me_4', 'Integer')], ['avg'])
         if k < 0.58:
             ids = ', '.join(n for n, _ in d['ids'])
-            vtl = 'DS_r <- DS_1[aggr Me_3 := sum(Me_1) group except %s having avg(Me_1) > 0];' % ids
+            vtl = 'DS_r <- DS_1[aggr Me_3 := sum(Me_1) group except %s having max(Me_1) >= min(Me_1)];' % ids
             sx = ('(aggr (spec (except %s) (list (item "Me_3" sum (expr (col "Me_1")))) '
-                  '(having ((item "__h0" avg (expr (col "Me_1")))) (bin gt (col "__h0") (const (i 0))))) (ds DS_1))' % ' '.join(nsx(n) for n, _ in d['ids']))
-            return self.finish('having-without-result-identifiers', fam, d, nr, vtl, sx, ['sum'], 'except', [], [('Me_3', 'Number')], ['avg'])
+                  '(having ((item "__h0" max (expr (col "Me_1"))) (item "__h1" min (expr (col "Me_1")))) (bin ge (col "__h0") (col "__h1")))) (ds DS_1))' % ' '.join(nsx(n) for n, _ in d['ids']))
+            return self.finish('having-without-result-identifiers', fam, d, nr, vtl, sx, ['sum'], 'except', [], [('Me_3', 'Number')], ['max', 'min'])
         if k < 0.7:
             fam, d, nr = self.dataset(fam='nomeas', nrows=r.choice([0, 1, 3, 9]))
             op = r.choice(['min', 'max'])
